@@ -71,9 +71,9 @@ def _enum_words(ra, rb, c, vals):
 
 
 def _enum_cases(ctx):
-    shapes = [(1, 1, 2), (1, 1, 3), (2, 1, 2)]
+    shapes = [(1, 1, 2), (2, 1, 2)]
     if ctx.thorough:
-        shapes += [(1, 2, 2), (2, 2, 2), (3, 1, 2), (1, 3, 2)]   # larger shapes overflow the VM stack (non-tail-recursive list functions)
+        shapes += [(1, 1, 3), (1, 2, 2), (2, 2, 2), (3, 1, 2), (1, 3, 2)]   # larger shapes overflow the VM stack (non-tail-recursive list functions)
     dis, texts, info = [], [], []
     for (ra, rb, c) in shapes:
         words, ma, mb, bits = _enum_words(ra, rb, c, VALS)
@@ -193,8 +193,8 @@ def _match_cases(ctx, n):
 
 def correspondence(ctx):
     dis = _enum_cases(ctx)
-    cases, meta, tests = _random_pairs(ctx, ctx.n(500, 6000))
-    c2, m2, t2 = _match_cases(ctx, ctx.n(200, 3000))
+    cases, meta, tests = _random_pairs(ctx, ctx.n(400, 6000))
+    c2, m2, t2 = _match_cases(ctx, ctx.n(150, 3000))
     cases.update(c2), meta.update(m2), tests.update(t2)
     dis += _run_cases("c16", "From Snax Require Import Base.Prelude Model.C03Schedule Model.C16Matcher.", cases, meta, tests,
                       chunk=130, nfiles=ctx.n(8, 12))
